@@ -15,6 +15,7 @@ EXTENDS Bytes, AnnexB, Av1Seq, Vp9Hdr, TLC
 
 LSig(p, q, site, cls) == << p, q, site, cls >>
 
+TooLong(u) == Len(u) > 65535
 Zeros(n) == [i \in 1..n |-> 0]
 Fld(name, off, w, want) == << name, off, w, want >>
 At(b, off, w) == Slice(b, off + 1, off + w)           \* bytes [off, off+w) of a payload, 0-based offset
@@ -288,9 +289,24 @@ ProgressiveRawSigs(F, cfg, firstKey, hasVideo) ==
                     ELSE NeedRaw(F, astsd \o ".Opus.dOps", "progressive/dOps", LAMBDA b : DOpsSigs("C19", "progressive/dOps", b, cfg.ch))))
           ELSE {})
 
+(* C16 on configuration values: a successfully produced file / init segment must not contain a value *)
+(* that its field cannot hold.                                                                       *)
+WidthSigs(site, cfg, firstKey, hasVideo) ==
+         (IF hasVideo /\ cfg.vc = "h264" /\ (TooLong(H264Sps(firstKey)) \/ TooLong(H264Pps(firstKey)))
+          THEN {LSig("C16", "FieldsFit", site \o "/avcC", "parameter-set-length-exceeds-16-bit-field")} ELSE {})
+    \cup (IF hasVideo /\ cfg.vc = "h265" /\ (TooLong(H265Vps(firstKey)) \/ TooLong(H265Sps(firstKey)) \/ TooLong(H265Pps(firstKey)))
+          THEN {LSig("C16", "FieldsFit", site \o "/hvcC", "parameter-set-length-exceeds-16-bit-field")} ELSE {})
+    \cup (IF cfg.w > 65535 \/ cfg.h > 65535 THEN {LSig("C16", "FieldsFit", site \o "/sample-entry", "dimension-exceeds-16-bit-field")} ELSE {})
+AudioWidthSigs(site, cfg) ==
+    IF cfg.ac = "none" THEN {}
+    ELSE (IF cfg.ac = "opus" /\ cfg.ch > 255 THEN {LSig("C16", "FieldsFit", site \o "/dOps", "channel-count-exceeds-8-bit-field")} ELSE {})
+    \cup (IF cfg.ac = "aac" /\ cfg.rate > 65535 THEN {LSig("C16", "FieldsFit", site \o "/mp4a", "sample-rate-exceeds-16.16-field")} ELSE {})
+
 RawSigsFile(F, cfg, v, a) ==
     IF ~("raw" \in DOMAIN F) THEN {}
     ELSE ProgressiveRawSigs(F, cfg, IF v = << >> THEN << >> ELSE v[1].src, v # << >>)
+         \cup WidthSigs("progressive", cfg, IF v = << >> THEN << >> ELSE v[1].src, v # << >>)
+         \cup AudioWidthSigs("progressive", cfg)
 
 (* ---- fragmented init segment: parameter sets come from the builder (cfg.sps / pps / vps / av1 / vp9) ---- *)
 InitConfigSigs(F, path, site, cfg) ==
@@ -298,6 +314,8 @@ InitConfigSigs(F, path, site, cfg) ==
         IF cfg.vc = "h264" THEN AvcCSigs("C07", site, b, cfg.sps, cfg.pps)
                             \cup (IF Len(b) >= 6 /\ (b[1] # 1 \/ b[5] # 255 \/ b[6] # 225) THEN {LSig("C19", "AvcC", site, "version-reserved")} ELSE {})
         ELSE IF cfg.vc = "h265" THEN
+             IF TooLong(cfg.vps) \/ TooLong(cfg.sps) \/ TooLong(cfg.pps) THEN {}       \* lengths cannot be stored: C16
+             ELSE
              { IF s[4] \in {"vps", "sps", "pps", "profile-tier-level"} THEN LSig("C07", s[2], s[3], s[4]) ELSE s
                : s \in HvcCSigs("C19", site, b, cfg.vps, cfg.sps, cfg.pps) }
         ELSE IF cfg.vc = "av1" THEN
@@ -307,9 +325,20 @@ InitConfigSigs(F, path, site, cfg) ==
                        tf |-> cfg.vp9.transfer_function, mc |-> cfg.vp9.matrix_coefficients, fr |-> cfg.vp9.full_range_flag]
              IN VpcCSigs("C19", site, b, f) \cup VpcCPlainSigs("C07", site, b, f))
 
+InitWidthSigs0(cfg) ==
+         (IF cfg.vc = "h264" /\ "sps" \in DOMAIN cfg /\ (TooLong(cfg.sps) \/ TooLong(cfg.pps))
+          THEN {LSig("C16", "FieldsFit", "/avcC", "parameter-set-length-exceeds-16-bit-field")} ELSE {})
+    \cup (IF cfg.vc = "h265" /\ "sps" \in DOMAIN cfg /\ "vps" \in DOMAIN cfg /\ (TooLong(cfg.vps) \/ TooLong(cfg.sps) \/ TooLong(cfg.pps))
+          THEN {LSig("C16", "FieldsFit", "/hvcC", "parameter-set-length-exceeds-16-bit-field")} ELSE {})
+    \cup (IF cfg.w > 65535 \/ cfg.h > 65535 THEN {LSig("C16", "FieldsFit", "/sample-entry", "dimension-exceeds-16-bit-field")} ELSE {})
+
+InitWidthSigs(cfg) ==
+    LET pre == IF cfg.via = "config" THEN "init-via-config" ELSE "init-via-builder" IN
+    { LSig(s[1], s[2], pre \o s[3], s[4]) : s \in InitWidthSigs0(cfg) }
 RawSigsInit(F, cfg) ==
     IF ~("raw" \in DOMAIN F) \/ ~cfg.judge_config THEN {}
-    ELSE LET vt == "moov.trak0"
+    ELSE InitWidthSigs(cfg) \cup
+         LET vt == "moov.trak0"
              ent == EntryOf(cfg.vc)
              vstsd == vt \o ".mdia.minf.stbl.stsd"
          IN
